@@ -41,7 +41,7 @@ func Table() map[string]*Property {
 		"gvc VC generator; z3 4.8.12, z3 5.1.0, cvc5 1.0",
 	}
 	add(&Property{
-		ID:     "C10",
+		ID: "C10",
 		Groups: []Group{{Layer: "D", Pkg: "derive", Ghost: fsGhost, Funcs: []string{"derive.pkg.Filename", "derive.pkg.Print", "derive.pkg.Delete", "derive.pkg.Add", "derive.newPackage", "derive.program.generatePackage", "derive.program.Generate",
 			"derive.finder.Visit", "derive.getInputTypes", "derive.newCall", "derive.newFileInfos"}},
 			{Layer: "D", Pkg: "main", Ghost: mainGhost, Funcs: []string{"main.main"}}},
@@ -55,7 +55,7 @@ func Table() map[string]*Property {
 		Note:    "frame on the ghost file system: newPackage changes no file without -autoname/-dedup (the 'unreachable' rename panic is proved unreachable), never touches derived.gen.go, creates or deletes nothing, and a rewritten file holds exactly Format(ast) (needs truncation); generatePackage changes only derived.gen.go (plus rewritten sources under the flags), on every return including errors; Print/Delete touch only Filename()",
 	})
 	add(&Property{
-		ID:     "C07",
+		ID: "C07",
 		Groups: []Group{{Layer: "D", Pkg: "derive", Ghost: fsGhost, Funcs: []string{"derive.pkg.Filename", "derive.pkg.Print", "derive.pkg.Delete", "derive.program.generatePackage", "derive.program.Generate",
 			"derive.finder.Visit", "derive.getInputTypes", "derive.newCall", "derive.newFileInfos", "derive.pkg.Add", "derive.newPackage"}}},
 		Assumptions: []string{
@@ -68,7 +68,7 @@ func Table() map[string]*Property {
 		Note:    "file-effect half of the property only; see assumptions",
 	})
 	add(&Property{
-		ID:     "C12",
+		ID: "C12",
 		Groups: []Group{{Layer: "D", Pkg: "derive", Ghost: fsGhost, Funcs: []string{"derive.sortPlugins", "derive.pkg.Add", "derive.NewPlugins", "derive.plugins.Load"}},
 			{Layer: "D", Pkg: "main", Ghost: mainGhost, Funcs: []string{"main.main"}}},
 		Assumptions: []string{
@@ -108,7 +108,9 @@ func Table() map[string]*Property {
 	})
 	add(&Property{
 		ID: "C14",
-		Extra: func(ctx *Ctx) ([]driver.ObResult, error) { return flatPredConformance(ctx, "contains.canEqual", "derive.IsComparable") },
+		Extra: func(ctx *Ctx) ([]driver.ObResult, error) {
+			return flatPredConformance(ctx, "contains.canEqual", "derive.IsComparable")
+		},
 		Groups: []Group{{Layer: "O", Funcs: []string{"contains.gen.genFuncFor", "unique.gen.genFuncFor", "set.gen.genFuncFor", "union.gen.genMap", "union.gen.genSlice",
 			"intersect.gen.genMap", "intersect.gen.genSlice", "filter.gen.genFuncFor", "takewhile.gen.genFuncFor", "all.gen.genFuncFor", "any.gen.genFuncFor"}, Only: semantic}},
 		Assumptions: append([]string{
@@ -152,7 +154,7 @@ func Table() map[string]*Property {
 	})
 	add(&Property{
 		ID:     "C03",
-		Extra: func(ctx *Ctx) ([]driver.ObResult, error) { return flatPredConformance(ctx, "equal.canEqual") },
+		Extra:  func(ctx *Ctx) ([]driver.ObResult, error) { return flatPredConformance(ctx, "equal.canEqual") },
 		Groups: []Group{{Layer: "O", Funcs: []string{"compare.gen.field", "compare.gen.genStatement", "compare.gen.genFunc", "compare.gen.genCurriedFunc"}, Only: semantic}},
 		Assumptions: append([]string{
 			"the specification function CmpTop is taken from the property: false<true, numeric <, byte-wise strings, real before imaginary part, nil first, shorter first, then lexicographic by position / field, maps of equal size through their sorted key enumerations; a different total order would fail the functional clause although the property allows it",
@@ -225,6 +227,9 @@ func Table() map[string]*Property {
 	c09 = append(c09, inner...)
 	add(&Property{
 		ID: "C01",
+		Extra: func(ctx *Ctx) ([]driver.ObResult, error) {
+			return flatPredConformance(ctx, "equal.canEqual", "deepcopy.canCopy", "contains.canEqual", "derive.IsComparable")
+		},
 		Groups: []Group{
 			{Layer: "D", Pkg: "derive", Funcs: []string{"derive.typesMap.isGenerated", "derive.typesMap.ToGenerate", "derive.typesMap.Done", "derive.typesMap.Generating", "derive.pkg.Done", "derive.pkg.Generate",
 				// the name table every lookup goes through: a call resolves to the function registered for exactly its (assignable) type list
@@ -243,7 +248,10 @@ func Table() map[string]*Property {
 		Note:    "work-list contracts plus the text-level obligations of every plugin",
 	})
 	add(&Property{
-		ID:     "C09",
+		ID: "C09",
+		Extra: func(ctx *Ctx) ([]driver.ObResult, error) {
+			return flatPredConformance(ctx, "equal.canEqual", "deepcopy.canCopy", "contains.canEqual", "derive.IsComparable")
+		},
 		Groups: []Group{{Layer: "O", NoVC: true, Funcs: c09, Only: genLevel},
 			// the driver's own run-time safety (find.go): newCall's "unreachable" panic is unreachable, no nil dereference, no index out of range
 			{Layer: "D", Pkg: "derive", Ghost: fsGhost, Funcs: []string{"derive.finder.Visit", "derive.getInputTypes", "derive.newCall", "derive.newFileInfos"}}},
@@ -277,7 +285,7 @@ func Table() map[string]*Property {
 	})
 	add(&Property{
 		ID:     "C05",
-		Extra: func(ctx *Ctx) ([]driver.ObResult, error) { return flatPredConformance(ctx, "deepcopy.canCopy") },
+		Extra:  func(ctx *Ctx) ([]driver.ObResult, error) { return flatPredConformance(ctx, "deepcopy.canCopy") },
 		Groups: []Group{{Layer: "O", Funcs: []string{"deepcopy.gen.genField", "deepcopy.gen.genFunc", "clone.gen.genFuncFor"}, Only: semantic}},
 		Assumptions: append([]string{
 			"'equal copy with nil-ness reproduced': the destination after the call is EqC/EqTop-equal to the source (SMT obligations): genField and genStatement print statements that assign their lvalue operand; a call of such a generator is rendered '<operand> = ĦS(...)' and the generator itself is checked on a wrapper returning the operand's final value; slices and maps filled in place are described by final(dst)",
@@ -293,7 +301,7 @@ func Table() map[string]*Property {
 	})
 	add(&Property{
 		ID:     "C18",
-		Extra: func(ctx *Ctx) ([]driver.ObResult, error) { return flatPredConformance(ctx, "derive.IsComparable") },
+		Extra:  func(ctx *Ctx) ([]driver.ObResult, error) { return flatPredConformance(ctx, "derive.IsComparable") },
 		Groups: []Group{{Layer: "O", Funcs: []string{"mem.gen.genFunc"}, Only: semantic}},
 		Assumptions: append([]string{
 			"f is a deterministic function of the structure of its arguments: result(i, f, args) is a function, and (hash-bucket path) Equal arguments give equal results",
@@ -308,7 +316,7 @@ func Table() map[string]*Property {
 	})
 	add(&Property{
 		ID:     "C02",
-		Extra: func(ctx *Ctx) ([]driver.ObResult, error) { return flatPredConformance(ctx, "equal.canEqual") },
+		Extra:  func(ctx *Ctx) ([]driver.ObResult, error) { return flatPredConformance(ctx, "equal.canEqual") },
 		Groups: []Group{{Layer: "O", Funcs: []string{"equal.gen.field", "equal.gen.genStatement", "equal.gen.genFunc", "equal.gen.genCurriedFunc"}, Only: semantic}},
 		Assumptions: []string{
 			"A-int; A-cfg (a hole replaced by a representative of its grammar class parses the same way); A-param (go/types is parametric in opaque named types)",
